@@ -14,6 +14,8 @@ UNITS = {
     "sign": dict(engine="verus", serves=["C04", "C10", "C13"]),
     "keystore":  dict(engine="verus", serves=["C08"]),
     "keykeeper": dict(engine="verus", serves=["C08", "C09"]),
+    "ebpf_c":  dict(engine="cbmc", serves=["C06"], path="c/ebpf", kind="CBMC function contracts (goto-instrument --dfcc) on the unmodified linux-ebpf/ebpf_cgroup.c against a contract-level model of the BPF helpers; gcc replay of counterexamples"),
+    "ebpf_rs": dict(engine="kani", serves=["C06"], path="kani/ebpf_rs", kind="Kani full-domain harnesses over the real ebpf_obj.rs (#[path]) and byte-for-byte extracted redirector items; layout table shared with the C side"),
     "authorizer": dict(engine="verus", serves=["C03", "C11", "C01"]),
 }
 
@@ -221,6 +223,15 @@ PROPERTIES["C09"] = dict(
     level_text="Deductive proof (Verus/Z3) of the inductive step for every prior state and every status document: validate Ok iff the document is valid; get_secure_channel_state/get_*_mode/get_*_rules/get_*_rule_id equal the spec functions written from the statement and field comments (1.0/2.0); in the verbatim loop-body tail a failed or invalid status makes no mutating call and changes nothing; otherwise each endpoint's rule id becomes the document's and its rules compute(document rules) iff the id changed, and after a complete iteration state == document state, disabled => no key (invariant preserved), enabled => the key is the host-named or just-attested one, redirect policy updated iff the state text changed with flag mode != disabled per endpoint; lemma: for every state satisfying I and a host-consistent document the resulting rules are a function of the document alone and I is preserved.",
     level_note="Trusted: one-message actor wrapper contracts (arms: unit actors); single-writer census; host contract (rule id determines content, empty id = no rules) and key-store naming invariant as explicit hypotheses; get_status body (only its validate tail verified); to_lowercase uninterpreted; format! literal stub; AuthorizationItem::clone equal. Clauses about actor state hold for iterations without an actor-call Err. Not covered: liveness/timing, the loop and select! around the slice (only the state-reset block of the notified arm), redirector internals (C06). Redirect updates are keyed on the state text: with the 2.0 channel disabled or undocumented mode words, later mode changes are not propagated (lemma states exactly when they are).",
     design_ref="DESIGN.md section 3 C09",
+    assumptions=[],
+)
+
+PROPERTIES["C06"] = dict(
+    units=["ebpf_c", "ebpf_rs"],
+    technique="CBMC function contracts (DFCC) on the unmodified eBPF C program, loop-free with fully symbolic inputs; Kani loop-free full-domain harnesses on the real Rust layout/decoding code; one layout table for both languages",
+    level_text="Kernel half: the contracts of connect4 and tcp_v4_connect (return value, redirect to the policy value, local/audit record = caller uid, tgid, uid==0, original destination, protocol; nothing changes for the agent's own processes, unlisted destinations and non-IPv4; assigns frames) and a two-step harness (connect4 by thread T, arbitrary interference on every other map cell, then T's kprobe) are enforced by goto-instrument --dfcc and decided by CBMC for all inputs (the program has no loops) against an assumed model of the documented BPF helpers; struct layouts are checked with offsetof/sizeof from one table. User-space half: Kani proves for all u32/u16 inputs that the policy key/value, audit key and skip entry byte images and the audit entry field order/decoding in ebpf_obj.rs, redirector.rs and redirector/linux.rs equal what the kernel program writes, and that the *_NETWORK_BYTE_ORDER constants equal the dotted addresses.",
+    level_note="Assumed: BPF helper/map semantics as documented (bpf_get_current_uid_gid = gid<<32|uid, pid_tgid = tgid<<32|pid, hash-map lookup/update/delete on the given key only, no LRU eviction below 200 in flight); map keys on the BPF stack fully initialised (clang zero-fills `= {0}`, the in-kernel verifier rejects anything else); little-endian host; each connect4 hit of a thread is followed by that thread's tcp_connect probe before its next connect; aya replaced by a recording stub; format! text not modelled in the Kani crate. Not covered: the in-kernel verifier/JIT, clang's BPF code generation, aya's loader, cgroup/kprobe attachment.",
+    design_ref="DESIGN.md section 3 C06",
     assumptions=[],
 )
 
